@@ -36,6 +36,10 @@ def _relative_output_path(output_root, output_path):
             os.path.isabs(relative_path)):
         raise AssertionError(
             'Stone attempted to write outside its output root: {}'.format(full_path))
+    if relative_path == os.curdir:
+        raise AssertionError(
+            'Stone attempted to write to its output root as if it were a file: {}'.format(
+                full_path))
     return relative_path.replace(os.sep, '/')
 
 
@@ -196,7 +200,9 @@ class Backend(metaclass=ABCMeta):
 
         Clears the output buffer on enter and exit.
         """
-        full_path = os.path.join(self.target_folder_path, relative_path)
+        # Normalised, so that a real run writes the very file a manifest run
+        # reports ('gen/../a.py', 'name/', 'dir/.').
+        full_path = os.path.normpath(os.path.join(self.target_folder_path, relative_path))
         self._validate_output_path(full_path)
         if self._record_output_path(full_path):
             self.clear_output_buffer()
@@ -218,10 +224,15 @@ class Backend(metaclass=ABCMeta):
 
     def copy_to_path(self, src, dst, *copy_args, **copy_kwargs):
         output_path = os.path.join(dst, os.path.basename(src)) if os.path.isdir(dst) else dst
+        # (normalised and with its parent directories, like output_to_relative_path)
+        output_path = os.path.normpath(output_path)
         self._validate_output_path(output_path)
         if self._record_output_path(output_path):
             return output_path
-        return shutil.copy(src, dst, *copy_args, **copy_kwargs)
+        directory = os.path.dirname(os.path.abspath(output_path))
+        if not os.path.exists(directory):
+            os.makedirs(directory)
+        return shutil.copy(src, output_path, *copy_args, **copy_kwargs)
 
     def output_buffer_to_string(self):
         # type: () -> typing.Text
